@@ -33,6 +33,7 @@ func devMain(args []string) {
 	only := fs.String("func", "", "only functions whose name contains this")
 	timeout := fs.Int("timeout", 10, "solver timeout (s)")
 	verbose := fs.Bool("v", false, "verbose")
+	showWrites := fs.String("writes", "", "print the inferred write set of functions whose name contains this")
 	fs.Parse(args)
 	eng, err := Load(*repo, strings.Split(*pkgs, ","))
 	if err != nil {
@@ -47,6 +48,22 @@ func devMain(args []string) {
 	eng.timeoutS = *timeout
 	defer cleanupSMT()
 	fmt.Printf("loaded in %.1fs; %d contracts\n", eng.loadSeconds, len(eng.specs.Funcs))
+	if *showWrites != "" {
+		for k, fns := range eng.funcs {
+			if strings.Contains(k, *showWrites) {
+				for _, f := range fns {
+					ws := eng.cachedWrites(f)
+					var ns []string
+					for n := range ws {
+						ns = append(ns, n)
+					}
+					sort.Strings(ns)
+					fmt.Printf("writes of %s:\n  %s\n", short(f.String()), strings.Join(ns, "\n  "))
+				}
+			}
+		}
+		return
+	}
 	dummy := &Exec{eng: eng}
 	axioms := eng.axiomTerms(dummy)
 	var keys []string
